@@ -33,7 +33,7 @@ Section MetaResume.
     (forall ix k, snd (fst (fst v)) ix k = snd (fst (fst v')) ix k) /\
     snd (fst v) = snd (fst v') /\ snd v = snd v'.
 
-  Ltac prj := cbn [st_old st_new st_off_old st_off_new st_e st_g st_geom fst snd i_it i_rel i_cont i_x] in *.
+  Ltac prj := cbn [st_old st_new st_off_old st_off_new st_e st_g st_geom st_traj fst snd i_it i_rel i_cont i_x] in *.
 
   Lemma filter_all {A} (f : A -> bool) l : forallb f l = true -> filter f l = l.
   Proof.
@@ -152,7 +152,7 @@ Section MetaResume.
   Proof.
     intros Hc (I1 & I2 & I3).
     unfold step_state. prj. rewrite (ugp_id c _ x Hc), (no_deposit_rel0 c _ it x Hc).
-    destruct s1 as [old new offo offn e g geom]. prj. subst geom.
+    destruct s1 as [old new offo offn e g geom trj]. prj. subst geom.
     unfold save_state, read_state, state_hills.
     destruct (c_use_grids c) eqn:Hg; cbn [negb orb].
     - (* with grids *)
@@ -195,7 +195,7 @@ Section MetaResume.
     - intros c s Hc Hi. rewrite load_save.
       (* the state read back, written again: one more (empty) projection *)
       destruct Hi as (I1 & I2 & I3).
-      destruct s as [old new offo offn e g geom]. prj. subst geom.
+      destruct s as [old new offo offn e g geom trj]. prj. subst geom.
       unfold meta_save, meta_saved_eq, save_state, read_state, state_hills. prj.
       destruct (c_use_grids c) eqn:Hg; cbn [negb orb].
       + destruct (I3 eq_refl) as (J1 & J2 & J3).
@@ -245,7 +245,7 @@ Section MetaResume.
   Proof.
     intros [(I1 & I2 & I3) Hn]. unfold save_state. destruct (c_use_grids c) eqn:Hg.
     - specialize (Hn eq_refl). destruct (I3 eq_refl) as (J1 & J2 & J3).
-      destruct s as [old new offo offn e g geom]. prj. subst new. cbn [filter] in J1. subst offn.
+      destruct s as [old new offo offn e g geom trj]. prj. subst new. cbn [filter] in J1. subst offn.
       unfold project, meta_eqv. prj. rewrite !app_nil_r. repeat split; auto.
       + (* without keepHills the list of binned hills is not compared *)
         intros H. rewrite Hg in H. destruct (c_keep c) eqn:Hk; [reflexivity | cbn in H; discriminate H].
